@@ -30,12 +30,16 @@ def build(reg, src):
         if name.startswith('KeyValueStorage.') or name in ('FileCache.' + p for p in PUBLIC) or name in ('FileCache._write_file', 'FileCache._load_file', 'FileCache.__init__'):
             del reg.fns[k]
     reg.extra_checks[:] = []
+    from contracts import c18_append
+    reg.extra_checks.append(c18_append.append_lock_check)
     reg.replays[:] = []
     reg.assumptions[:] = [
         "monitor rule: between a release and the next acquire other threads change the guarded state arbitrarily within G; "
         "threading.Lock gives mutual exclusion; tasks submitted to the executor run on other threads at any time",
         "msum lemmas as in C16 (Lean); ghost file model; dict/heapq library contracts",
-        "linearizability of returned values, progress (every call returns) and the per-file append lock of PandasDataFrameCache.update are NOT decided",
+        "linearizability of returned values and progress in general (every call returns) are NOT decided; of progress only 'no lock is acquired while "
+        "this thread holds it' is (lock-acquire-not-held); the per-file append lock of PandasDataFrameCache.update is under its own "
+        "contract (contracts/c18_append.py: guarantees g1-g4 proved, the rely on other threads assumed)",
     ]
 
     def setup(eng, st):
